@@ -302,7 +302,7 @@ type interpPair struct {
 
 func ruleC19R4(w *World, r *Report) {
 	const rule = "C19/R4"
-	r.rule(rule, "tools/util/poslang: the interpreter method of every construct of the position language computes the same function as the ast helper its emitter names — both are executed abstractly over the finite partition of operand values their comparisons can distinguish (Pos: <-1, -1, 0, >0; node: nil/non-nil; slice length 0/1/>1; bool), sub-evaluations standing for the helper's parameters, and must return the same term in every cell; the first-match loops of PosChoice/NodeChoice are matched structurally", 9)
+	r.rule(rule, "tools/util/poslang: the interpreter method of every construct of the position language computes the same function as the ast helper its emitter names — both are executed abstractly over the finite partition of operand values their comparisons can distinguish (Pos: <-1, -1, 0, >0; node: nil/non-nil; slice length 0/1/>1; bool), sub-evaluations standing for the helper's parameters, and must return the same term in every cell; the first-match loops of PosChoice/NodeChoice are matched structurally", 5)
 	pl := w.Pkgs[modRoot+"/tools/util/poslang"]
 	if pl == nil {
 		r.errorf("package tools/util/poslang not loaded")
